@@ -105,6 +105,11 @@ def add_alt_shape(prog, rep, prefix, ctx, grow_fn_name, counter):
             good = False
             continue
         rows.add((force, present, bool(ins)))
+        if not ins and force is not False:
+            rep.bad(f"{prefix}.insert-condition", where, f"force={force} present={present} not inserted",
+                    "a path skips the insertion without having tested force: a forced add of a key already reported present inserts nothing", f.where())
+            good = False
+            continue
         if bool(ins) != should or len(ins) > 1:
             rep.bad(f"{prefix}.insert-condition", where, f"force={force} present={present} inserted={len(ins)}",
                     f"with force={force}, present={present} the key is inserted {len(ins)} time(s); expected insertion exactly when force or not present", f.where())
